@@ -84,6 +84,10 @@ class Ctx:
             r["discharged"] += 1
             if sample is not None and len([s for s in self.samples if s.get("rule") == rule]) < 3:
                 self.samples.append({"rule": rule, "site": f"{func}: {construct}", "discharged_by": sample})
+        elif rule in getattr(self, "scope", {}) and not self.scope[rule][0](func):
+            # the rule runs package-wide, this property claims its findings only in the functions its statement is about
+            r["obligations"] -= 1
+            self.note(f"[{rule}] outside {self.prop} ({self.scope[rule][1]}): {func}: {message[:160]}")
         elif rule in getattr(self, "outside", {}):
             # a shared audit saw a defect that is not a necessary condition of THIS property (it is one of the property named
             # in `outside`): the obligation is not counted here, the observation is kept as a note
